@@ -68,8 +68,6 @@ def attribute(plan: dict, mism: list[str]) -> str | None:
     text = " | ".join(mism)
     if f["multi_content"] and f["has_query_or_header"] and ("query" in text or "headers" in text):
         return "F12"
-    if f["multi_content"] and "One of the content-type parameters must be provided" in text and f.get("optional_body_omitted"):
-        return "F62"   # the runtime dispatch has no branch for "no body": an optional body cannot be omitted
     if f["multi_content"] and ("unexpected keyword argument" in text or "required positional argument" in text):
         return "F12"   # the multi-media implementation method makes optional parameters required and omits cookie parameters
     return None
